@@ -134,4 +134,22 @@ func VF_C19_Rest() {
 	vf.Reach("synced")
 	vf.Assert(a.errs == 0, "C19 no error reaches the client's error handler")
 	vf.Assert(jsonEq(doc.GetValue(), parseJSON(t1)), "C19 a subscribed client converges to the target")
+	// a second REST patch on the same document (the administrative client comes back)
+	t2 := c19Targets[vf.Choice("target2", len(c19Targets))]
+	if t2 == t1 {
+		return
+	}
+	end1 := d.Sseq.End
+	res2, err2 := w.svc.PatchDocument(gocontext.TODO(), &model.PatchMessage{Key: vfKey, Collection: vfCol, Json: t2})
+	vf.Assert(err2 == nil && res2 != nil && jsonEq(parseJSON(res2.Json), parseJSON(t2)), "C19 the second REST patch is answered with its target")
+	sv2, last2, ok2 := w.serverDoc(vfKey)
+	d2, _ := w.store.GetDatatypeByKey(context0(), 1, vfKey)
+	vf.Assert(ok2 && jsonEq(sv2, parseJSON(t2)), "C19 the stored document equals the target of the latest patch")
+	vf.Assert(d2.Sseq.End > end1 && last2 == d2.Sseq.End && w.logInvariant(d2.DUID), "C19/C06 every patch appends its operations to a gapless log")
+	for r := 0; r < 2; r++ {
+		vf.Assert(a.cli.Sync() == nil, "client sync succeeds")
+		vf.Quiesce()
+	}
+	vf.Reach("patched-twice")
+	vf.Assert(a.errs == 0 && jsonEq(doc.GetValue(), parseJSON(t2)), "C19 a subscribed client converges to the target of every patch")
 }
